@@ -1,4 +1,5 @@
 """C12 re-blocking to the 64x64x4 layout changes layout only."""
+import os
 import random
 
 import numpy as np
@@ -96,6 +97,9 @@ def run_case(case, ctx):
                     if sp.ntr == sp.grid_traces:
                         c.gen_trace_header(sp.ntr - 1)
                     prehist = True
+                    # ... and has re-blocked the file once already (the second output is the one observed)
+                    c.convert_to_adv_sgz(out + '.first')
+                    os.remove(out + '.first')
                 c.convert_to_adv_sgz(out)
     finally:
         del R.open
